@@ -559,8 +559,13 @@ func runMetrics(t *testing.T, p *Plan) *Outcome {
 	}
 	// checked outside the bubble: porcupine's timeout must be real time
 	res := porcupine.Illegal
-	if len(unsure) > 6 {
-		unsure = unsure[:6]
+	if len(unsure) > 10 {
+		// more calls ended in a backend panic than readings can be enumerated for
+		// (2^n histories): the run is not judged. (An earlier version judged it
+		// with only the first six calls left open, which reported a history with
+		// seven panicked calls as not linearizable on the unchanged tree.)
+		out.Probe("too_many_panicked_calls_to_judge")
+		return out
 	}
 	// every reading of the calls that panicked: each either took effect or did not
 	for mask := 0; mask < 1<<len(unsure) && res == porcupine.Illegal; mask++ {
